@@ -81,11 +81,52 @@ def p_upstream_split_and_whole(prog):
     return False
 
 
+def p_partial_inner_combiner(prog):
+    """a combiner names only part of an inner-linked (zipped) field group, own or upstream"""
+    from vlib.ref import splitter as S
+
+    groups = {}  # (node, field) -> frozenset of the fields zipped with it
+    for nd in prog["nodes"]:
+        t = nd.get("split")
+        if t is None or S.is_leaf(t):
+            continue
+        axes, _, _ = S.ev(t, {f: 1 for f in S.fields_of(t)})
+        for ax in axes:
+            for f in ax:
+                groups[(nd["name"], f)] = frozenset(ax)
+    for nd in prog["nodes"]:
+        named = set()
+        for c in nd.get("combine") or []:
+            named.add(tuple(c.split(".", 1)) if "." in c else (nd["name"], c))
+        for node, f in named:
+            g = groups.get((node, f), frozenset())
+            if len(g) >= 2 and any((node, o) not in named for o in g):
+                return True
+    return False
+
+
+def p_inner_split_over_multi_axis_upstream(prog):
+    try:
+        _, res = RW.evaluate(prog)
+    except Exception:
+        return False
+    for nd in prog["nodes"]:
+        for s in nd["in"].values():
+            if s[0] == "splitnode" and len(res[s[1]]["axes"]) >= 2:
+                return True
+    return False
+
+
 CLASSES = [
     ("ValueError@state.py:_add_current_groups", p_combiner_upstream_axis_with_own_split,
      "combiner-names-upstream-axis-on-node-with-own-split"),
     ("TypeError@state.py:_remove_repeated", p_fan_in_shared_origin, "fan-in-of-shared-origin"),
     ("wrong-values", p_upstream_split_and_whole, "upstream-output-both-split-over-and-passed-whole"),
+    ("AttributeError@workflow.py:_create_graph", p_partial_inner_combiner,
+     "combiner-names-part-of-an-inner-linked-group"),
+    ("AssertionError@lazy.py:split", p_inner_split_over_multi_axis_upstream,
+     "inner-split-over-output-of-node-with-two-or-more-state-axes"),
+    ("wrong-values", p_fan_in_shared_origin, "fan-in-of-shared-origin-multiplied-instead-of-aligned"),
 ]
 
 
@@ -139,4 +180,4 @@ def run(sh):
             return
         sh.run_case(prog, nontrivial=RW.nontrivial(prog), labels=labels, raise_unattributed=True)
 
-    sh.given(G.programs(), body, sh.budget(400, 6000), tag="programs")
+    sh.given(G.mixed_programs(), body, sh.budget(480, 8000), tag="programs")
